@@ -111,10 +111,12 @@ fn run_case(rep: &mut Report, args: &Args, cs: u64, sink_kind: &str) {
         _ => 0,
     };
     let barrier = Arc::new(Barrier::new(threads));
+    let arrived = Arc::new(std::sync::atomic::AtomicUsize::new(0));
     let mut joins = Vec::new();
     for t in 0..threads {
         let client = client.clone();
         let barrier = barrier.clone();
+        let arrived = arrived.clone();
         let mut r = rng.fork();
         let does_flush = t < flushers;
         let rx_probe = rx_probe.clone();
@@ -160,6 +162,25 @@ fn run_case(rep: &mut Report, args: &Args, cs: u64, sink_kind: &str) {
                     }
                 }
             }
+            // the run ends with every thread making one last emit at the same moment (spin barrier): whatever a sink
+            // does with an emit that finds it busy, nothing is called afterwards but the final flush or the drop
+            if panicked.is_none() {
+                arrived.fetch_add(1, std::sync::atomic::Ordering::SeqCst);
+                let t0 = std::time::Instant::now();
+                while arrived.load(std::sync::atomic::Ordering::SeqCst) < threads && t0.elapsed().as_secs() < 30 {
+                    std::hint::spin_loop();
+                }
+                let key = format!("t{}.s{}.last", t, per_thread);
+                match panics::guard(|| client.gauge(&key, per_thread as u64)) {
+                    Ok(Ok(m)) => {
+                        let text = m.as_metric_str().to_string();
+                        let oversize = text.len() + 1 > cap;
+                        sent.push(Sent { seq: per_thread, text, ok: true, oversize });
+                    }
+                    Ok(Err(_)) => sent.push(Sent { seq: per_thread, text: format!("{}:{}|g", key, per_thread), ok: false, oversize: false }),
+                    Err(p) => panicked = Some(p),
+                }
+            }
             (sent, panicked, flush_points)
         }));
     }
@@ -178,8 +199,8 @@ fn run_case(rep: &mut Report, args: &Args, cs: u64, sink_kind: &str) {
             Err(_) => panic_msg = Some("thread died".into()),
         }
     }
-    // every other run ends with the drop alone: a dropped sink has written what it accepted, flushed or not
-    let final_flush = cs % 2 == 0;
+    // three runs in four end with the drop alone: a dropped sink has written what it accepted, flushed or not
+    let final_flush = cs % 4 == 0;
     let flush_res = if final_flush { client.flush() } else { Ok(()) };
     rep.obs(if final_flush { "runs_ending_with_flush_then_drop" } else { "runs_ending_with_the_drop_alone" }, 1);
     drop(client);
